@@ -57,7 +57,10 @@
 #include "celeritas/track/SimParams.hh"
 #include "celeritas/track/StatusChecker.hh"
 #include "celeritas/track/TrackInitParams.hh"
+#include "celeritas/user/ActionDiagnostic.hh"
+#include "celeritas/user/SimpleCalo.hh"
 #include "celeritas/user/StepCollector.hh"
+#include "celeritas/user/StepDiagnostic.hh"
 #include "celeritas/user/StepInterface.hh"
 #include "problems/geo_zoo.hh"
 
@@ -82,6 +85,9 @@ struct LoopChooser
     virtual ~LoopChooser() = default;
     //! pick one of n outcomes (0 = default)
     virtual int choose(int n, InteractionQuery const& q) = 0;
+    //! told by the scripted interactor whether the secondary allocation of the outcome just
+    //! chosen failed (Interaction::from_failure was returned)
+    virtual void allocation_result(bool /*failed*/) {}
 };
 inline thread_local LoopChooser* g_loop_chooser = nullptr;
 
@@ -97,13 +103,14 @@ enum class Outcome
     unchanged,  // no change
     scatter_three,  // keeps E/4, three secondaries E/8 each (gamma, e-, gamma), rest deposited
     annihilate,  // (e+ only) absorbed; two gammas sharing avail
+    absorb_in_flight,  // like absorb but only offered to a moving particle
     size_
 };
 inline char const* to_cstring(Outcome o)
 {
     static char const* const n[] = {"absorb", "scatter_half", "scatter_plus_one", "absorb_two",
                                     "absorb_pair", "absorb_subcut", "unchanged", "scatter_three",
-                                    "annihilate"};
+                                    "annihilate", "absorb_in_flight"};
     return n[int(o)];
 }
 
@@ -161,6 +168,10 @@ inline std::vector<Outcome> feasible_outcomes(ScriptedShared const& s, int kind,
         switch (o)
         {
             case Outcome::absorb: r.push_back(o); break;
+            case Outcome::absorb_in_flight:
+                if (e > 0)
+                    r.push_back(o);
+                break;
             case Outcome::unchanged:
                 if (e > 0)
                     r.push_back(o);
@@ -218,7 +229,6 @@ struct ScriptedExecutor
     Interaction operator()(CoreTrackView const& track)
     {
         ScriptedShared const& s = *shared;
-        ++s.calls;
         auto particle = track.make_particle_view();
         auto sim = track.make_sim_view();
         int kind = particle_kind(s, particle.particle_id());
@@ -267,7 +277,7 @@ struct ScriptedExecutor
         }
         auto menu = feasible_outcomes(s, kind, e);
         int pick = 0;
-        if (g_loop_chooser && menu.size() > 1)
+        if (g_loop_chooser)
         {
             InteractionQuery q{kind, e, unsigned(sim.event_id().unchecked_get()),
                                unsigned(sim.track_id().unchecked_get()),
@@ -279,9 +289,16 @@ struct ScriptedExecutor
         auto allocate = track.make_physics_step_view().make_secondary_allocator();
         using E = units::MevEnergy;
         Interaction r;
-        auto fail = [] { return Interaction::from_failure(); };
+        auto fail = [] {
+            if (g_loop_chooser)
+                g_loop_chooser->allocation_result(true);
+            return Interaction::from_failure();
+        };
+        if (g_loop_chooser)
+            g_loop_chooser->allocation_result(false);  // overwritten by fail() below
         switch (o)
         {
+            case Outcome::absorb_in_flight:
             case Outcome::absorb: {
                 r = Interaction::from_absorption();
                 r.energy_deposition = E{avail};
@@ -431,6 +448,7 @@ struct ScriptedProcessInput
     double xs_mat{1.0};  // macroscopic cross section in "mat" [1/cm]
     bool xs_starts_at_zero{true};  // first knot 0 => not an at-rest process
     bool at_rest{false};  // applicability down to E=0, xs>0 at first knot
+    bool lower_zero{false};  // model applicable down to E=0 (xs is extrapolated below emin)
     double dedx_mat{0};  // constant stopping power in "mat" [MeV/cm]; 0 = none
     bool integral{false};
     MaterialId mat, vacuum;
@@ -445,7 +463,7 @@ class ScriptedProcess final : public Process
     {
         Applicability a;
         a.particle = in_.particle;
-        a.lower = units::MevEnergy{in_.at_rest ? 0.0 : in_.emin};
+        a.lower = units::MevEnergy{(in_.at_rest || in_.lower_zero) ? 0.0 : in_.emin};
         a.upper = units::MevEnergy{in_.emax};
         return {std::make_shared<ScriptedModel>(*start_id, in_.label + "-model", a, in_.shared)};
     }
@@ -496,8 +514,11 @@ struct StepRec
         int volume;
     } pre, post;
     int stream;
+    unsigned call;  // Stepper call index (stamped from the shared ProbeLog if present)
+    int detector;  // -1 if no detector map
 };
 inline constexpr unsigned no_id = 0xffffffffu;
+struct ProbeLog;
 
 class Recorder final : public StepInterface
 {
@@ -507,13 +528,21 @@ class Recorder final : public StepInterface
     void process_steps(HostStepState st) final
     {
         auto const& d = st.steps.data;
-        ++calls;
+        std::vector<StepRec>& steps
+            = (split_streams && st.stream_id.unchecked_get() > 0)
+                  ? per_stream.at(st.stream_id.unchecked_get() - 1)
+                  : this->steps;
         for (TrackSlotId::size_type i = 0; i < d.size(); ++i)
         {
             TrackSlotId ts{i};
             if (!d.track_id[ts])
                 continue;
+            // with a detector map the consumer must ignore slots without a detector
+            if (!d.detector.empty() && !d.detector[ts])
+                continue;
             StepRec r{};
+            r.detector = d.detector.empty() ? -1 : int(d.detector[ts].unchecked_get());
+            r.call = call_stamp ? *call_stamp : 0;
             r.slot = i;
             r.stream = st.stream_id.unchecked_get();
             r.track = d.track_id[ts].unchecked_get();
@@ -547,7 +576,12 @@ class Recorder final : public StepInterface
     Filters filters_;
     StepSelection selection_{StepSelection::all()};
     std::vector<StepRec> steps;
-    unsigned long long calls{0};
+    unsigned const* call_stamp{nullptr};
+    // concurrent streams (C07): records of stream s > 0 go to per_stream[s-1] (pre-sized,
+    // so that threads never touch shared containers)
+    bool split_streams{false};
+    std::vector<std::vector<StepRec>> per_stream;
+    std::vector<StepRec>& stream_steps(unsigned s) { return s == 0 ? steps : per_stream.at(s - 1); }
 };
 
 //---------------------------------------------------------------------------//
@@ -668,6 +702,13 @@ struct LoopConfig
     double lowest_electron_energy{0.02};
     bool bookkeeping{false};
     std::vector<StepActionOrder> probes;  // orders at which a ProbeAction is inserted
+    // scoring variants (C17)
+    bool second_recorder{false};
+    StepInterface::Filters recorder2_filters{};
+    StepSelection recorder2_selection{StepSelection::all()};
+    std::vector<std::string> calo_volumes;  // non-empty: a SimpleCalo over these volumes
+    bool action_diagnostic{false};
+    bool step_diagnostic{false};
     bool with_recorder{true};
     StepInterface::Filters recorder_filters{};
     StepSelection recorder_selection{StepSelection::all()};
@@ -687,6 +728,10 @@ struct LoopProblem
     std::shared_ptr<Recorder> recorder;
     std::shared_ptr<StepCollector> collector;
     std::shared_ptr<ProbeLog> probe_log;
+    std::shared_ptr<Recorder> recorder2;
+    std::shared_ptr<SimpleCalo> calo;
+    std::shared_ptr<ActionDiagnostic> action_diag;
+    std::shared_ptr<StepDiagnostic> step_diag;
     std::shared_ptr<CoreParams const> core;
     ParticleId gamma, electron, positron;
     MaterialId mat, vacuum;
@@ -820,6 +865,9 @@ inline std::unique_ptr<LoopProblem> make_loop_problem(LoopConfig const& cfg)
         auto add = [&](std::string label, ParticleId pid, double xs, bool zero_first, bool at_rest,
                        double dedx) {
             ScriptedProcessInput in;
+            // cross sections are extrapolated below the table like for the real models, whose
+            // applicability reaches down to zero energy
+            in.lower_zero = true;
             in.label = std::move(label);
             in.particle = pid;
             in.xs_mat = xs;
@@ -918,12 +966,42 @@ inline std::unique_ptr<LoopProblem> make_loop_problem(LoopConfig const& cfg)
         }
         auto core = std::make_shared<CoreParams>(std::move(inp));
         P->core = core;
-        if (cfg.with_recorder)
         {
-            P->recorder = std::make_shared<Recorder>();
-            P->recorder->filters_ = cfg.recorder_filters;
-            P->recorder->selection_ = cfg.recorder_selection;
-            P->collector = StepCollector::make_and_insert(*core, {P->recorder});
+            StepCollector::VecInterface callbacks;
+            if (cfg.with_recorder)
+            {
+                P->recorder = std::make_shared<Recorder>();
+                if (cfg.max_streams > 1)
+                    P->recorder->per_stream.resize(cfg.max_streams - 1);
+                P->recorder->filters_ = cfg.recorder_filters;
+                P->recorder->selection_ = cfg.recorder_selection;
+                if (P->probe_log)
+                    P->recorder->call_stamp = &P->probe_log->call;
+                callbacks.push_back(P->recorder);
+            }
+            if (cfg.second_recorder)
+            {
+                P->recorder2 = std::make_shared<Recorder>();
+                P->recorder2->filters_ = cfg.recorder2_filters;
+                P->recorder2->selection_ = cfg.recorder2_selection;
+                if (P->probe_log)
+                    P->recorder2->call_stamp = &P->probe_log->call;
+                callbacks.push_back(P->recorder2);
+            }
+            if (!cfg.calo_volumes.empty())
+            {
+                std::vector<Label> labels;
+                for (auto const& n : cfg.calo_volumes)
+                    labels.push_back(Label{n});
+                P->calo = std::make_shared<SimpleCalo>(labels, *geo, cfg.max_streams);
+                callbacks.push_back(P->calo);
+            }
+            if (!callbacks.empty())
+                P->collector = StepCollector::make_and_insert(*core, std::move(callbacks));
+            if (cfg.action_diagnostic)
+                P->action_diag = ActionDiagnostic::make_and_insert(*core);
+            if (cfg.step_diagnostic)
+                P->step_diag = StepDiagnostic::make_and_insert(*core, 64);
         }
         for (auto aid : range(ActionId{action_reg->num_actions()}))
         {
